@@ -382,9 +382,10 @@ theorem spec_filter_some {α} (sp : Spec) (ov pre : Option Bool) (b : Bool) (ite
 theorem spec_filter_none {α} (sp : Spec) (own : Bool) (items : List (α × Ver))
     (hown : sp.prereleases none = .ok own) (h : ∀ x ∈ items, CmpOk (sp, none) x.2) :
     sp.filter none none items =
-      .ok (let y := (items.filter fun x => mcmp (sp, none) x.2 && !(x.2.isPre && !own)).map (·.1)
-           let f := (items.filter fun x => mcmp (sp, none) x.2 && (x.2.isPre && !own)).map (·.1)
-           if y.isEmpty && !f.isEmpty then f else y) := by
+      .ok (if ((items.filter fun x => mcmp (sp, none) x.2 && !(x.2.isPre && !own)).map (·.1)).isEmpty &&
+              !((items.filter fun x => mcmp (sp, none) x.2 && (x.2.isPre && !own)).map (·.1)).isEmpty
+           then (items.filter fun x => mcmp (sp, none) x.2 && (x.2.isPre && !own)).map (·.1)
+           else (items.filter fun x => mcmp (sp, none) x.2 && !(x.2.isPre && !own)).map (·.1)) := by
   simp only [Spec.filter, filterLoop_none sp own items [] [] hown h, ok_bind, List.nil_append]
   split <;> simp_all
 
